@@ -1,11 +1,17 @@
 """C17 - modules and packages resolve according to the project layout.
 
-Spec: Layout.tla.  A configuration is a project tree (1-4 packages: the root, registry dependencies under
-<root>/build/packages/<name>, path dependencies next to the root; dependency DAG; modules at src|test/<dir>*/<name>.gleam
-with equal names in different packages; a free-standing file; an open order).  The reference operators ModuleName,
-RootOf, Visible, Resolve, External are written declaratively there and TLC checks on every configuration that Resolve is a
-function into Visible(RootOf(importer)), that RootOf is the unique longest-prefix root and that ModuleName is injective per
-package.
+Spec: Layout.tla.  A configuration is a project tree: 1-4 packages (the root; every other package has an ENTRY - how its
+importers name it: by version requirement or by `path = ...` - and, independently, a PLACE - <root>/build/packages/<name>,
+next to the root, or nested in the root as <root>/packages/<name>; all combinations that denote a project, e.g. a path
+entry pointing into build/packages, plus "twins": a same-named directory lying next to a build/packages package); a
+dependency DAG; modules at src|test/<dir>*/<name>.gleam whose directories are drawn from {dir, sub, src, test, build,
+packages} (src/test/helpers.gleam is the module test/helpers), with equal names in different packages; a free-standing
+file; an open order.  Every file imports every module name in use and every proper tail of one (`import helpers` next to
+test/helpers must not resolve).  The reference operators ModuleName, RootOf, Visible, Resolve, External are written
+declaratively there (External = the package directory is .../build/packages/<name>, whatever the entry says) and TLC checks
+on every configuration that Resolve is a function into Visible(RootOf(importer)), that RootOf is the unique longest-prefix
+root, that ModuleName is the path below the package's src/ or test/ directory and injective per package, and that External
+coincides with place = build/packages for every base directory.
 
 GEN, end to end: TLC prints every finished configuration with the spec's predictions (BFS: all configurations of a small
 scope, exactly once; -simulate: random configurations up to 4 packages / arbitrary open orders).  This module writes the tree
@@ -16,7 +22,9 @@ and compares
     overlaps the name of the expected definition.  Asked twice: right after the file has been opened (only a prefix of the
     open order is known to the server) and again when everything is open;
   * textDocument/prepareRename on uses and on definitions with External: error (or null) for symbols of build/packages
-    packages, a range for local ones; textDocument/rename of local functions must not edit files of build/packages;
+    packages, a range for local ones; textDocument/rename of local functions must not edit files of build/packages
+    (what rename accepts and edits is C08's subject; it is observed here on every generated layout and reported as a C17
+    violation, "packages under build/packages are ... not editable");
   * definition / hover / glas/syntaxTree on the free-standing file: answered, no error response, server alive.
 
 What is a violation (and what is not):
@@ -34,8 +42,12 @@ from urllib.parse import unquote
 import vlib, lsp
 
 STYLES = ["qual", "unqual", "alias"]
-INV = ("TypeOK RootsDistinct RootOfIsInnermost ModuleNameInjective ResolveIsFunction ResolveIsVisible "
+INV = ("TypeOK RootsDistinct ExternalIsPlace RootOfIsInnermost ModuleNameInjective ResolveIsFunction ResolveIsVisible "
        "ImportsAcyclic DepsShape").split()
+# (entry, place) of a package -> the label used in feature vectors
+KIND = {("root", "top"): "root", ("version", "packages"): "registry", ("path", "sibling"): "path", ("path", "nested"): "nested",
+        ("path", "packages"): "pinned", ("none", "sibling"): "twin", ("none", "nested"): "twin"}
+SPECIAL_SEGMENTS = {"src", "test", "build", "packages"}
 ACTIONS_BFS = ["AddPackage", "AddDep", "AddModules", "Open", "Finish"]
 
 
@@ -71,8 +83,9 @@ class Tree:
     def __init__(self, case, salt):
         self.case = case
         self.salt = salt
-        self.pkgs = {p["name"]: p for p in case["pkgs"]}
+        self.pkgs = {p["id"]: p for p in case["pkgs"]}      # by label: a twin has the NAME of its original
         self.files = {tuple(f["path"]): f for f in case["files"]}
+        self.modnames = {tuple(f["modname"]) for f in case["files"] if f["role"] == "module"}
         self.texts = {}      # rel path -> text
         self.defs = {}       # path tuple -> {"fn": (line, c0, c1), "ty": (line, c0, c1)}
         self.probes = {}     # path tuple -> list of probes
@@ -91,29 +104,49 @@ class Tree:
         for p in case["pkgs"]:
             lines = ['name = "%s"' % p["name"], 'version = "1.0.0"', "", "[dependencies]"]
             for d in sorted(p["deps"], key=lambda d: d["name"]):
-                if d["kind"] == "path":
-                    lines.append('%s = { path = "../%s" }' % (d["name"], d["name"]))
+                if d["entry"] == "path":
+                    # the relative path from this package's directory to the dependency's, wherever that is:
+                    # "../lib" (sibling), "packages/lib" (nested), "build/packages/lib" (a pinned download), ...
+                    lines.append('%s = { path = "%s" }' % (d["name"], os.path.relpath(os.path.join("/", *d["loc"]),
+                                                                                      os.path.join("/", *p["loc"]))))
                 else:
                     lines.append('%s = "~> 1.0"' % d["name"])
             self.tomls[os.path.join(*p["loc"], "gleam.toml")] = "\n".join(lines) + "\n"
 
-    def kind_of_pkg(self, name):
-        return self.pkgs[name]["kind"] if name else "free"
+    def kind_of_pkg(self, pid):
+        return KIND[(self.pkgs[pid]["entry"], self.pkgs[pid]["place"])] if pid else "free"
 
-    def via_path_only(self, name):
-        """A registry package that no chain root -> registry -> ... -> registry reaches: every way to it passes through a
-        path dependency.  (Feature of the known finding C17-F1: such packages are looked up in the wrong directory.)"""
-        if not name or self.pkgs[name]["kind"] != "registry":
+    def entry_of_pkg(self, pid):
+        return self.pkgs[pid]["entry"] if pid else "free"
+
+    def via_path_only(self, pid):
+        """A package named by version entries that no chain root -> version -> ... -> version reaches: every way to it
+        passes through a path entry.  (Feature of the known finding C17-F1: such packages are looked up in the wrong
+        directory.)"""
+        if not pid or self.pkgs[pid]["entry"] != "version":
             return False
-        root = self.case["pkgs"][0]["name"]
+        root = self.case["pkgs"][0]["id"]
         reach, todo = {root}, [root]
         while todo:
             a = todo.pop()
             for d in self.pkgs[a]["deps"]:
-                if d["kind"] == "registry" and d["name"] not in reach:
-                    reach.add(d["name"])
-                    todo.append(d["name"])
-        return name not in reach
+                if d["entry"] == "version" and d["id"] not in reach:
+                    reach.add(d["id"])
+                    todo.append(d["id"])
+        return pid not in reach
+
+    def name_is(self, name):
+        """a module name in use somewhere in the configuration, or only the tail of one (`helpers` of test/helpers)"""
+        return "module" if tuple(name) in self.modnames else "tail"
+
+    def pinned_via_dotdot(self, pid):
+        """A build/packages package named by the path entry of a package other than the root project: every such entry
+        contains `..` ("../lib", "../app/build/packages/lib", "../../build/packages/lib").  (Feature of the known finding
+        C17-F2b/c: glas keeps the package root under the un-normalised path.)"""
+        if not pid or self.pkgs[pid]["entry"] != "path" or self.pkgs[pid]["place"] != "packages":
+            return False
+        root = self.case["pkgs"][0]["id"]
+        return any(d["id"] == pid for p in self.case["pkgs"] if p["id"] != root for d in p["deps"])
 
     def _intended(self, u):
         """(pkg, modname) whose names the use site spells: the expected target, else a same-named module that must NOT be
@@ -135,8 +168,19 @@ class Tree:
         imports = []
         body = []
         extra = []
+        # A module's names are imported unqualified at most once per file, by the import that must resolve to it if there is
+        # one: `import src/gen.{f}` (resolves) next to `import gen.{f}` (must not) would let the second f() resolve through
+        # the first import.  The other use sites that spell the same names fall back to the alias style.
+        styles = [STYLES[(i + fi + self.salt) % 3] for i in range(len(uses))]
+        claimed = {tuple(map(str, self._intended(u))) for u, st in zip(uses, styles) if st == "unqual" and u["target"]}
         for i, u in enumerate(uses):
-            style = STYLES[(i + fi + self.salt) % 3]
+            key = tuple(map(str, self._intended(u)))
+            if styles[i] == "unqual" and not u["target"]:
+                if key in claimed:
+                    styles[i] = "alias"
+                claimed.add(key)
+        for i, u in enumerate(uses):
+            style = styles[i]
             modpath = "/".join(u["name"])
             ipkg, imod = self._intended(u)
             fname, tname = fn_name(ipkg, imod), ty_name(ipkg, imod)
@@ -150,7 +194,7 @@ class Tree:
         for (u, style, modpath, fname, tname, acc, alias) in imports:
             line = len(L)
             base = {"name": u["name"], "target": u["target"], "targetpkg": u["targetpkg"], "style": style,
-                    "decoys": u["decoys"]}
+                    "decoys": u["decoys"], "name_is": self.name_is(u["name"])}
             if style == "unqual":
                 text = "import %s.{%s, type %s}" % (modpath, fname, tname)
                 if alias:
@@ -256,6 +300,9 @@ class CaseRun:
     def importer_kind(self, parts):
         return self.tree.kind_of_pkg(self.tree.files[tuple(parts)]["pkg"])
 
+    def importer_entry(self, parts):
+        return self.tree.entry_of_pkg(self.tree.files[tuple(parts)]["pkg"])
+
     def bad(self, feats, **bad):
         self.viol.append((feats, bad))
 
@@ -267,12 +314,16 @@ class CaseRun:
     # ---- one definition probe
     def probe_definition(self, parts, p, rnd):
         feats = {"query": p["q"], "style": p["style"], "round": rnd, "importer_kind": self.importer_kind(parts),
+                 "importer_entry": self.importer_entry(parts),
                  "target_kind": self.tree.kind_of_pkg(p["targetpkg"]) if p["target"] else "none",
+                 "target_entry": self.tree.entry_of_pkg(p["targetpkg"]) if p["target"] else "none",
                  "expected": "resolved" if p["target"] else "unresolved",
-                 "importer_pkg_via_path_only": self.tree.via_path_only(self.tree.files[tuple(parts)]["pkg"])}
-        if rnd == "early" and feats["importer_kind"] == "path" and feats["target_kind"] == "registry" and not self.root_known:
-            # only files of path dependencies have been opened so far: nothing has told the server yet which project's
-            # build/packages holds the registry packages.  Asked again in the final round.
+                 "name_is": p["name_is"],
+                 "importer_pkg_via_path_only": self.tree.via_path_only(self.tree.files[tuple(parts)]["pkg"]),
+                 "importer_pkg_pinned_via_dotdot": self.tree.pinned_via_dotdot(self.tree.files[tuple(parts)]["pkg"])}
+        if rnd == "early" and feats["importer_entry"] == "path" and feats["target_entry"] == "version" and not self.root_known:
+            # only files of local path dependencies have been opened so far: nothing has told the server yet which project's
+            # build/packages holds the packages named by version.  Asked again in the final round.
             self.stats["skipped_early"] += 1
             return
         r = self.ask("textDocument/definition", self.pos_params(parts, p["line"], p["col"]))
@@ -359,10 +410,11 @@ class CaseRun:
         ext_dirs = [os.path.normpath(os.path.join(self.root, *p["loc"])) + os.sep for p in self.case["pkgs"] if p["external"]]
         hit = [u for u in uris if any((norm_uri(u) + os.sep).startswith(d) or norm_uri(u).startswith(d) for d in ext_dirs)]
         if hit:
-            pkg_of = lambda u: next(p["name"] for p in self.case["pkgs"] if p["external"] and
+            pkg_of = lambda u: next(p["id"] for p in self.case["pkgs"] if p["external"] and
                                     norm_uri(u).startswith(os.path.normpath(os.path.join(self.root, *p["loc"])) + os.sep))
             self.bad(dict(feats, what="rename of a local symbol edits build/packages",
-                          edited_pkgs_via_path_only=all(self.tree.via_path_only(pkg_of(u)) for u in hit)),
+                          edited_pkgs_via_path_only=all(self.tree.via_path_only(pkg_of(u)) for u in hit),
+                          edited_pkgs_pinned_via_dotdot=all(self.tree.pinned_via_dotdot(pkg_of(u)) for u in hit)),
                      got=[os.path.relpath(norm_uri(u), self.root) for u in hit], **where)
 
     def probes_of_file(self, parts, rnd):
@@ -379,8 +431,11 @@ class CaseRun:
             ext = self.tree.pkgs[f["pkg"]]["external"]
             line, c0, _ = t.defs[tuple(parts)]["fn"]
             feats = {"query": "prepareRename", "on": "definition", "importer_kind": self.importer_kind(parts),
-                     "target_kind": self.importer_kind(parts), "round": rnd,
-                     "importer_pkg_via_path_only": self.tree.via_path_only(f["pkg"])}
+                     "importer_entry": self.importer_entry(parts),
+                     "target_kind": self.importer_kind(parts), "target_entry": self.importer_entry(parts), "round": rnd,
+                     "importer_pkg_via_path_only": self.tree.via_path_only(f["pkg"]),
+                     "importer_pkg_pinned_via_dotdot": self.tree.pinned_via_dotdot(f["pkg"]),
+                     "target_pkg_pinned_via_dotdot": self.tree.pinned_via_dotdot(f["pkg"])}
             where = {"file": rel(parts), "line": line, "col": c0 + 2}
             self.probe_gate(parts, line, c0 + 2, ext, feats, where)
             if not ext:
@@ -390,8 +445,12 @@ class CaseRun:
                 continue
             ext = self.tree.pkgs[p["targetpkg"]]["external"]
             feats = {"query": "prepareRename", "on": p["q"], "importer_kind": self.importer_kind(parts),
-                     "target_kind": self.tree.kind_of_pkg(p["targetpkg"]), "round": rnd,
-                     "importer_pkg_via_path_only": self.tree.via_path_only(f["pkg"])}
+                     "importer_entry": self.importer_entry(parts),
+                     "target_kind": self.tree.kind_of_pkg(p["targetpkg"]),
+                     "target_entry": self.tree.entry_of_pkg(p["targetpkg"]), "round": rnd,
+                     "importer_pkg_via_path_only": self.tree.via_path_only(f["pkg"]),
+                     "importer_pkg_pinned_via_dotdot": self.tree.pinned_via_dotdot(f["pkg"]),
+                     "target_pkg_pinned_via_dotdot": self.tree.pinned_via_dotdot(p["targetpkg"])}
             where = {"file": rel(parts), "line": p["line"], "col": p["col"], "import": "/".join(p["name"]),
                      "expected_target": rel(p["target"])}
             self.probe_gate(parts, p["line"], p["col"], ext, feats, where)
@@ -429,9 +488,13 @@ class CaseRun:
             done = []
             for parts in self.case["order"]:
                 path = self.abspath(parts)
-                self.sess.did_open(path, open(path).read())
+                with open(path) as fh:
+                    self.sess.did_open(path, fh.read())
                 done.append(parts)
-                if parts[:len(self.case["pkgs"][0]["loc"])] == self.case["pkgs"][0]["loc"]:
+                owner = self.tree.files[tuple(parts)]["pkg"]
+                if owner and (owner == self.case["pkgs"][0]["id"] or self.tree.pkgs[owner]["external"]):
+                    # a file of the root project, or of a package in its build/packages (the server walks up to the
+                    # enclosing project); a nested member or a sibling is a project of its own
                     self.root_known = True
                 if tuple(parts) == self.tree.free:
                     self.probe_free("early")
@@ -450,13 +513,21 @@ class CaseRun:
                          exit_code=self.sess.exit_code(), opened=[rel(p) for p in done])
         finally:
             self.sess.close()
+            # the results of all configurations are kept until the end of the run: do not keep the server's pipes with them
+            self.sess.t.join(2.0)      # the reader thread ends at EOF of the server's stdout
+            for pipe in (self.sess.p.stdin, self.sess.p.stdout):
+                try:
+                    pipe.close()
+                except OSError:
+                    pass
+            self.sess = None
         return self
 
 
 def features_of_case(case):
-    kinds = [p["kind"] for p in case["pkgs"]]
-    pk = {p["name"]: p for p in case["pkgs"]}
-    direct = {(p["name"], d["name"]) for p in case["pkgs"] for d in p["deps"]}
+    kinds = [KIND[(p["entry"], p["place"])] for p in case["pkgs"]]
+    pk = {p["id"]: p for p in case["pkgs"]}
+    direct = {(p["id"], d["id"]) for p in case["pkgs"] for d in p["deps"]}
     trans = any((a, c) not in direct for (a, b) in direct for (b2, c) in direct if b == b2)
     fpk = {tuple(f["path"]): f["pkg"] for f in case["files"]}
     cross = any(u["target"] and fpk[tuple(u["target"])] != fpk[tuple(u["from"])] for u in case["uses"])
@@ -468,8 +539,29 @@ def features_of_case(case):
                  any(fpk[tuple(d)] in {b for (a, b) in direct if a == fpk[tuple(u["from"])]} for d in u["decoys"])
                  for u in case["uses"])
     first = case["order"][0]
-    first_kind = "free" if fpk[tuple(first)] == "" else pk[fpk[tuple(first)]]["kind"]
-    return {"npk": len(kinds), "registry": "registry" in kinds, "path": "path" in kinds, "transitive_chain": trans,
+    first_kind = "free" if fpk[tuple(first)] == "" else KIND[(pk[fpk[tuple(first)]]["entry"], pk[fpk[tuple(first)]]["place"])]
+    modfiles = [f for f in case["files"] if f["role"] == "module"]
+    modnames = {tuple(f["modname"]) for f in modfiles}
+    twins = [p for p in case["pkgs"] if p["twin_of"]]
+    names_of = lambda pid: {tuple(f["modname"]) for f in modfiles if f["pkg"] == pid}
+    return {"npk": len(kinds), "registry": "registry" in kinds, "path": "path" in kinds,
+            # entry x place: a path entry pointing into build/packages, a member nested in the root project, a same-named
+            # directory next to a build/packages package (and one offering a module name of its original)
+            "pinned": "pinned" in kinds, "nested": "nested" in kinds, "twin": bool(twins),
+            "twin_shares_module_name": any(names_of(t["id"]) & names_of(t["twin_of"]) for t in twins),
+            "path_entry_from_build_packages": any(p["place"] == "packages" and d["entry"] == "path"
+                                                  for p in case["pkgs"] for d in p["deps"]),
+            # module directories called src / test / build / packages below src/ or test/
+            "special_dir": any(set(f["modname"][:-1]) & SPECIAL_SEGMENTS for f in modfiles),
+            "dir_named_like_its_source_dir": any(f["modname"][0] in ("src", "test") and len(f["modname"]) > 1 for f in modfiles),
+            # `import helpers` next to test/helpers: must stay unresolved / must find the real module helpers
+            "tail_import_unresolved": any(tuple(u["name"]) not in modnames and not u["target"] and fpk[tuple(u["from"])]
+                                          for u in case["uses"]),
+            "tail_is_also_a_module": any(tuple(u["name"]) in modnames and u["target"] and
+                                         any(len(fm["modname"]) > len(u["name"]) for fm in modfiles
+                                             if tuple(fm["path"]) in {tuple(d) for d in u["decoys"]})
+                                         for u in case["uses"]),
+            "transitive_chain": trans,
             "cross_package_import": cross, "equal_names": any(len(v) > 1 for v in names.values()),
             "own_shadows_dep": shadow, "first_opened": first_kind,
             "nested_dir": any(len(f["modname"]) > 1 for f in case["files"]),
@@ -477,7 +569,7 @@ def features_of_case(case):
             "unresolved_with_decoy": any((not u["target"]) and u["decoys"] and fpk[tuple(u["from"])] for u in case["uses"])}
 
 
-def run_cases(out, cases, salt0, workers=8, keep_dirs=False):
+def run_cases(out, cases, salt0, workers=min(12, max(4, vlib.NCPU - 4)), keep_dirs=False):
     base = vlib.workdir("c17")
     results = [None] * len(cases)
 
@@ -558,7 +650,10 @@ def vacuity(cover, n):
     """the generated population must contain the situations the property talks about"""
     need = ["npk=4", "npk=1", "registry=True", "path=True", "transitive_chain=True", "cross_package_import=True",
             "equal_names=True", "own_shadows_dep=True", "first_opened=root", "first_opened=registry", "first_opened=path",
-            "first_opened=free", "nested_dir=True", "test_dir=True", "unresolved_with_decoy=True"]
+            "first_opened=free", "nested_dir=True", "test_dir=True", "unresolved_with_decoy=True",
+            "pinned=True", "nested=True", "twin=True", "twin_shares_module_name=True", "special_dir=True",
+            "dir_named_like_its_source_dir=True", "tail_import_unresolved=True", "tail_is_also_a_module=True",
+            "first_opened=pinned", "first_opened=nested"]
     missing = [k for k in need if cover.get(k, 0) == 0]
     if missing:
         raise vlib.ToolError("generated configurations never exercise: " + ", ".join(missing))
@@ -578,9 +673,12 @@ def run(out, tier, seed):
     out.cov["samples"] += [cases[0], cases[len(bfs) // 2], sims[0], sims[-1]]
     out.cov["rule"] = (
         "TLC enumerates every configuration of Layout within the bounds of the BFS cfg exactly once (%d) and checks the model "
-        "invariants (Resolve is a function into Visible(RootOf(importer)), RootOf = unique longest-prefix root, ModuleName "
-        "injective per package) on each; %d further distinct configurations (up to 4 packages, src+test, 3 locations of the "
-        "local packages, arbitrary open orders) are drawn by TLC -simulate.  Every configuration is written to disk, a fresh "
+        "invariants (Resolve is a function into Visible(RootOf(importer)), RootOf = unique longest-prefix root, ModuleName = "
+        "path below src|test and injective per package, External <=> the directory is build/packages/<name>) on each; the "
+        "dependency packages range over entry (version | path | none) x place (build/packages | sibling | nested in the "
+        "root), module directories over {dir, sub, src, test, build, packages}; %d further distinct configurations (up to 4 "
+        "packages, 12 module names, src+test, 3 locations of the local packages, twins, arbitrary open orders) are drawn by "
+        "TLC -simulate.  Every file imports every module name in use and every proper tail of one.  Every configuration is written to disk, a fresh "
         "server process opens the files in the configuration's order, and every import use site is asked twice "
         "(after its file was opened; after all files are open).  evaluations = LSP requests compared; distinct_nontrivial = "
         "configurations with >= 2 packages and at least one import that must resolve into another package"
@@ -588,8 +686,11 @@ def run(out, tier, seed):
     out.assumptions += [
         "importer's own module wins over an equally named module of a dependency; two direct dependencies of one package "
         "never export the same module name (Gleam rejects such projects)",
-        "registry dependencies of every package (also of path dependencies) live under <root project>/build/packages, as the "
-        "gleam build tool lays them out",
+        "a version entry names <root project>/build/packages/<name>, for every package of the project (also for path "
+        "dependencies), as the gleam build tool lays them out; a path entry names the directory it spells, wherever that is",
+        "a package is external exactly if its directory is .../build/packages/<name> (the property's rule); how it is referred "
+        "to (version or path entry) does not matter",
+        "a same-named directory next to a build/packages package (twin) is a project of its own: nothing resolves into it",
         "URIs are compared after lexical normalisation of '..'",
         "imports are acyclic (Gleam rejects cycles); every module imports every name that does not create a cycle",
         "TLC/SANY, Json module; python LSP client framing (bin/lsp.py)"]
